@@ -124,6 +124,7 @@ theorem popWrap_ctl (m : M N) (i : Nat) : Keeps m.1 (fun x : N × M N => x.2.1) 
     · split at h
       · cases h; exact popRaw_ctl _ _
       · cases h
+      · cases h
         have := popRaw_ctl (setStack m.1 0 (lineStack ‹List Char›)) 0
         simpa [setStack] using this
     · cases h; exact popRaw_ctl _ _
